@@ -9,7 +9,7 @@
    every run (Schema/Run.v + harness/c18), not proved. *)
 From Coq Require Import ZArith QArith List String NArith.
 From GSP Require Import Base.Prelude Schema.Json Schema.Regex Schema.Model Schema.Spec
-  Schema.ThRegex Schema.ThJson Schema.Theory Schema.Decide Schema.Fuel Schema.Complete Schema.Total.
+  Schema.ThRegex Schema.ThJson Schema.Theory Schema.Decide Schema.Fuel Schema.Complete Schema.Total Schema.Adequate.
 Import ListNotations.
 
 (* MAIN STATEMENT.  For every environment of $ref targets, every schema whose $ref
@@ -184,6 +184,24 @@ Theorem C18_glue_verdict :
 Proof. exact glue_verdict. Qed.
 Print Assumptions C18_glue_verdict.
 
+(* UNCONDITIONAL form for the wrapper model that the case files run (`validate_data`,
+   fuel policy `fuel_for`): for every schema document the compiler accepts and every
+   object instance the answer is Ok exactly for conforming data and Err "invalid"
+   exactly for non-conforming data (the fuel always suffices: no spurious loop error) *)
+Theorem C18_glue_exact :
+  forall o sj c,
+  compile_root sj = Ok c ->
+  (validate_data (Some (JObj o)) (Some sj) = Ok tt <-> Valid (c_env c) (c_root c) (JObj o)) /\
+  (validate_data (Some (JObj o)) (Some sj) = Err "invalid" <-> ~ Valid (c_env c) (c_root c) (JObj o)).
+Proof. exact validate_data_exact. Qed.
+Print Assumptions C18_glue_exact.
+
+Theorem C18_fuel_adequate :
+  forall sj c j, compile_root sj = Ok c ->
+  validate (c_env c) (fuel_for c j) (c_root c) j <> None.
+Proof. exact compiled_defined. Qed.
+Print Assumptions C18_fuel_adequate.
+
 (* the model of ValidateData is total: Ok or a classified error, for every input *)
 Theorem C18_glue_total :
   forall fuel_of data schema,
@@ -216,6 +234,23 @@ Theorem C18_draft2020_ref_siblings_apply :
    Valid E (SAllOf (simples cks ++ props_bundle cks ++ items_bundle D2020 cks)) j).
 Proof. exact draft2020_ref_siblings_apply. Qed.
 Print Assumptions C18_draft2020_ref_siblings_apply.
+
+(* the wrapper model is a function of (data, schema) only: for every history of calls
+   made by one process the i-th result equals the result of a fresh call; two schema
+   revisions sharing one "$id" are each judged by their own text *)
+Theorem C18_history_independent :
+  forall (calls : list (option json * option json)) (i : nat) data schema,
+  nth_error calls i = Some (data, schema) ->
+  nth_error (run_history calls) i = Some (validate_data data schema).
+Proof. exact history_independent. Qed.
+Print Assumptions C18_history_independent.
+
+Theorem C18_history_prefix_irrelevant :
+  forall pre1 pre2 data schema post1 post2,
+  nth_error (run_history (pre1 ++ (data, schema) :: post1)) (List.length pre1) =
+  nth_error (run_history (pre2 ++ (data, schema) :: post2)) (List.length pre2).
+Proof. exact history_prefix_irrelevant. Qed.
+Print Assumptions C18_history_prefix_irrelevant.
 
 (* processor facade: delegation, or an error when no validator is configured *)
 Theorem C18_glue_processor :
